@@ -3,6 +3,8 @@
 (* dasp_rms::Rms (and the dasp_signal::rms adaptor): windowed root mean    *)
 (* square, property C11.                                                   *)
 (*                                                                         *)
+(* Layers 1 and 2 live in RmsCore.tla (arithmetic-agnostic) and are        *)
+(* instantiated here over the dyadic rationals:                            *)
 (* layer 1 (property): the last N input frames, zero-initialised, as EXACT *)
 (*   dyadic rationals; True(c) = (sum of the last N squares of channel c)  *)
 (*   / N.  No rounding, no running sum: the sum is recomputed from the     *)
@@ -22,8 +24,6 @@
 (* compared through y*N and y*y*N (verify by inverse).                     *)
 (***************************************************************************)
 EXTENDS SampleFormats
-
-RB == INSTANCE RingBuffer
 
 ---------------------------------------------------------------------------
 (* helpers on dyadics that Dyadic.tla does not have (kept here: shared files are not edited) *)
@@ -47,51 +47,15 @@ DMulInt(k, x) == DMul(DFromInt(k), x)
 \* (integers: signed Big value; floats: IEEE fields)
 AmpD(fmt, v) == IF IsFloat(fmt) THEN Dec(FmtOf(fmt), v)
                 ELSE DScale2(DFromS(Amp(fmt, v)), 0 - (Bits(fmt) - 1))
-ZeroFrame(ch) == [c \in 1..ch |-> DZero]
-SqFrame(x) == [c \in DOMAIN x |-> DSq(x[c])]
 
 ---------------------------------------------------------------------------
-(* layer 1: the property *)
-
-L1Init(n, ch)  == [i \in 1..n |-> ZeroFrame(ch)]          \* preceding silence
-L1Push(w, x)   == Append(Tail(w), x)                      \* the window is always the last N frames
-RECURSIVE SumSqFrom(_, _, _)
-SumSqFrom(w, c, i) == IF i = 0 THEN DZero ELSE DAdd(SumSqFrom(w, c, i - 1), DSq(w[i][c]))
-SumSq(w, c)    == SumSqFrom(w, c, Len(w))                 \* True(c) = SumSq(w, c) / Len(w)
-\* an output is described, not computed: value = num/den, or its square root
-MeanSq(w, c)   == [num |-> SumSq(w, c), den |-> Len(w), root |-> FALSE]
-TrueRms(w, c)  == [num |-> SumSq(w, c), den |-> Len(w), root |-> TRUE]
-
-\* layer 1 with the squares and their sum cached, one channel: [win, sum]
-C1Init(n)    == [win |-> [i \in 1..n |-> DZero], sum |-> DZero]
-C1Push(s, x) == LET q == DSq(x) IN
-                [win |-> Append(Tail(s.win), q), sum |-> DTrim(DAdd(DSub(s.sum, s.win[1]), q))]
-
----------------------------------------------------------------------------
-(* layer 2: dasp_rms as coded, over exact arithmetic *)
-
-L2Init(n, ch) == [rb  |-> RB!FFrom([i \in 1..n |-> ZeroFrame(ch)]),   \* ring_buffer::Fixed::from([EQUILIBRIUM; n])
-                  sum |-> ZeroFrame(ch)]                               \* square_sum: Frame::EQUILIBRIUM
-L2Len(s) == RB!FLen(s.rb)                                              \* window_frames()
-\* calc_rms_squared: square_sum / window.len()
-L2Mean(s, root) == [c \in DOMAIN s.sum |-> [num |-> s.sum[c], den |-> L2Len(s), root |-> root]]
-L2NextSquared(s, x) ==
-  LET q  == SqFrame(x)                                     \* new_frame.to_float_frame().map(|s| s * s)
-      r  == RB!FPush(s.rb, q)                              \* window.push(new_frame_square) -> removed square
-      s2 == [rb  |-> r.f,
-             sum |-> [c \in DOMAIN x |->
-                        LET diff == DSub(DAdd(s.sum[c], q[c]), r.ret[c]) IN   \* add new, subtract removed
-                        IF DSign(diff) < 0 THEN DZero ELSE diff]]             \* clamp at equilibrium
-  IN [s |-> s2, out |-> L2Mean(s2, FALSE)]
-L2Next(s, x) == LET r == L2NextSquared(s, x) IN [s |-> r.s, out |-> L2Mean(r.s, TRUE)]   \* .map(sample_sqrt)
-L2Current(s) == [s |-> s, out |-> L2Mean(s, TRUE)]
-L2Reset(s)   ==                                            \* for sq in window.iter_mut() { *sq = EQUILIBRIUM }; sum = EQUILIBRIUM
-  LET ch == Len(s.sum)
-      z  == RB!ApplyF(s.rb, [ev |-> "iter_mut", a |-> [vs |-> [i \in 1..L2Len(s) |-> ZeroFrame(ch)]]])
-  IN [s |-> [rb |-> z.f, sum |-> ZeroFrame(ch)], out |-> << >>]
-\* dasp_signal::rms adaptor: feed the source's next frame to the detector
-SigNext(s, src)        == LET r == L2Next(s, Head(src))        IN [s |-> r.s, out |-> r.out, src |-> Tail(src)]
-SigNextSquared(s, src) == LET r == L2NextSquared(s, Head(src)) IN [s |-> r.s, out |-> r.out, src |-> Tail(src)]
+(* layers 1 and 2: RmsCore.tla over the dyadic rationals.  This brings in   *)
+(*   RB (= RingBuffer), ZeroFrame, SqFrame,                                 *)
+(*   L1Init L1Push SumSq MeanSq TrueRms   C1Init C1Push   (layer 1)         *)
+(*   L2Init L2Len L2Mean L2NextSquared L2Next L2Current L2Reset             *)
+(*   SigNext SigNextSquared                                 (layer 2)       *)
+DIsNeg(d) == DSign(d) < 0
+INSTANCE RmsCore WITH Zero <- DZero, Add <- DAdd, Sub <- DSub, Sq <- DSq, IsNeg <- DIsNeg
 
 ---------------------------------------------------------------------------
 (* trace layer: one channel = C1 plus an error budget                      *)
@@ -133,7 +97,7 @@ TPush(F, c, st, x) ==
   LET q  == DSq(x)
       n1 == C1Push([win |-> st.win, sum |-> st.sum], x)
       ex == st.ex /\ GridOK(q, st.sum) /\ (c = 0 \/ IsExactIn(F, x))
-  IN [win |-> n1.win, sum |-> n1.sum, ex |-> ex,
+  IN [win |-> n1.win, sum |-> DTrim(n1.sum), ex |-> ex,
       bud |-> IF ex THEN DZero
               ELSE DCeilTo(DAdd(st.bud, DScale2(DAdd(DAdd(st.sum, q), st.bud), 2 - F.p)), 48)]
 
